@@ -47,7 +47,7 @@ EXHAUSTIVE = {'quick': False, 'thorough': False}
 ASSUMPTIONS = ['programs are type-correct, terminating and error-free (apart from division by zero, which is compared) under the reference semantics (membership decided by Spec)',
                'reals, events, index access, set operators and referential-attribute access are not generated',
                'the four classes / five CREATE ROP statements of harness/gen_oal_prog.py are the schema of every case']
-TRUSTED_EXTRA = ['bridgepoint.oal.parse is used to parse the generated text for BOTH sides (parser properties are C07/C08/C13)',
+TRUSTED_EXTRA = ['the reference semantics gets the program as the generator built it; bridgepoint.oal.parse parses the rendered text for the implementation only, and its tree is compared with the generator\'s on every case',
                  'observation-only wrapper around ActionWalker.accept in the scratch copy (branch / iteration statistics)']
 CHUNK = 400
 CASE_TIMEOUT_S = 10
@@ -270,11 +270,24 @@ def G_to_plain(x):
 
 # ----------------------------------------------------------------------------------------------- cases
 
-def model_line_for(pop, text, kwargs):
-    tree = _oal.parse(text)
+def reference_tree(prog, text):
+    """-> (the program as the reference semantics gets it, None or how the parser's tree differs).  The tree is built from
+    the GENERATOR's program, not from a parse of its text: what the reference is asked does not pass through the
+    implementation.  The parser's tree of the rendered text is compared with it (cross-check)."""
+    mine = G.tree_sexp(prog)
+    theirs = oal_sexp.encode(_oal.parse(text))
+    diff = None
+    if not G.same_tree(mine, theirs):
+        a, b = dumps(mine), dumps(theirs)
+        k = next((i for i in range(min(len(a), len(b))) if a[i].lower() != b[i].lower()), min(len(a), len(b)))
+        diff = 'program tree …%s… / parsed tree …%s…' % (a[max(0, k - 60):k + 60], b[max(0, k - 60):k + 60])
+    return mine, diff
+
+
+def model_line_for(pop, prog, text, kwargs):
+    tree, diff = reference_tree(prog, text)
     kw = [[n, (Sym('T') if v is True else Sym('F') if v is False else v)] for n, v in sorted(kwargs.items())]
-    return dumps([Sym('interp'), FUEL, G.ctx_sexp(), G.state_sexp(pop, G.initial_next_id(pop)),
-                  oal_sexp.encode(tree), kw])
+    return dumps([Sym('interp'), FUEL, G.ctx_sexp(), G.state_sexp(pop, G.initial_next_id(pop)), tree, kw]), diff
 
 
 FAIL_TAILS = [
@@ -305,27 +318,34 @@ def with_tail(prog, up, tail):
 
 def make_session(ident, pop, steps, up):
     """steps: [(prog, kwargs, tail or None)] run one after the other on ONE metamodel under ONE label"""
-    wire, impl = [], []
+    wire, impl, diffs = [], [], []
     for prog, kwargs, tail in steps:
         if tail is None:
-            ref_text = py_text = G.render(prog, up)
+            ref_prog, ref_text = prog, G.render(prog, up)
+            py_text = ref_text
         else:
             ref_text, py_text = with_tail(prog, up, tail)
-        tree = _oal.parse(ref_text)
+            body, last = (prog[:-1], prog[-1:]) if prog and prog[-1][0] == 'return' else (prog, [])
+            ref_prog = body + tail[0] + last
+        tree, diff = reference_tree(ref_prog, ref_text)
+        if diff:
+            diffs.append(diff)
         kw = [[n, (Sym('T') if v is True else Sym('F') if v is False else v)] for n, v in sorted(kwargs.items())]
-        wire.append([oal_sexp.encode(tree), kw])
+        wire.append([tree, kw])
         impl.append({'text': py_text, 'kwargs': kwargs, 'fails': tail[2] if tail else None})
     line = dumps([Sym('interp-seq'), FUEL, G.ctx_sexp(), G.state_sexp(pop, G.initial_next_id(pop))] + wire)
     text = '\n-- next program, same metamodel --\n'.join(
         ('-- fails half way: %s\n' % st['fails'] if st['fails'] else '') + st['text'] for st in impl)
     return {'id': ident, 'pop': pop, 'prog': [st for p, _, _ in steps for st in p], 'progs': [p for p, _, _ in steps],
-            'steps': impl, 'steps_src': [[p, kw, (list(t) if t else None)] for p, kw, t in steps], 'text': text, 'kwargs': steps[0][1], 'up': up, 'line': line, 'expect': None}
+            'steps': impl, 'steps_src': [[p, kw, (list(t) if t else None)] for p, kw, t in steps], 'text': text, 'kwargs': steps[0][1], 'up': up, 'line': line, 'expect': None,
+            'parse_differs': diffs[0] if diffs else None}
 
 
 def make_case(ident, pop, prog, kwargs, up):
     text = G.render(prog, up)
+    line, diff = model_line_for(pop, prog, text, kwargs)
     return {'id': ident, 'pop': pop, 'prog': prog, 'text': text, 'kwargs': kwargs, 'up': up,
-            'line': model_line_for(pop, text, kwargs), 'expect': None}
+            'line': line, 'expect': None, 'parse_differs': diff}
 
 
 def attach_expectations(ctx, cases):
@@ -524,6 +544,10 @@ def run_impl(case):
     exp = case.get('expect')
     if exp is None:
         raise RuntimeError('case %r carries no expectation of the reference semantics' % (case.get('id'),))
+    if case.get('parse_differs'):
+        fails.append({'sig': 'parsed-tree-differs-from-program',
+                      'what': 'bridgepoint.oal.parse reads the text differently from the program it was rendered from: %s\nprogram:\n%s'
+                              % (case['parse_differs'], case['text'])})
     # a `%` evaluated with a negative operand: a difference in such a run carries its own signature (the remainder
     # convention), so that it can be told from every other difference
     negmod = bool(tr['negmod'])
